@@ -151,6 +151,8 @@ const (
 	kFileRotTS      kind = "FileSink(rotating, stamp on rotate)"
 	kFileRotTSKeep  kind = "FileSink(rotating, stamp on rotate, MaxFiles 100000)"
 	kFileRotStamped kind = "FileSink(rotating, stamped)"
+	// a formatter filter whose predicate rejects every event (only in the per-pipeline scenarios)
+	kJSONFFReject kind = "JSONFormatterFilter(reject)"
 )
 
 var filterKinds = []kind{kFilter, kEnc, kGated}
@@ -189,12 +191,21 @@ type world struct {
 	fileSinks map[string]*el.FileSink
 	amu       sync.Mutex
 	acked     map[int]bool
+	// per-pipeline view: which sink a pipeline ends in, whether it rejects every event; acknowledged events per type
+	pipes       []pipeInfo
+	ackedByType map[string]map[int]bool
+	notComplete []string
+}
+
+type pipeInfo struct {
+	typ, sink string
+	rejects   bool
 }
 
 func newWorld(dir string) *world {
 	b, _ := el.NewBroker()
 	return &world{b: b, dir: dir, nodes: map[string]el.Node{}, writers: map[string]*checkedWriter{}, stop: make(chan struct{}),
-		sinkFeeds: map[string][]bool{}, fileSinks: map[string]*el.FileSink{}, acked: map[int]bool{}}
+		sinkFeeds: map[string][]bool{}, fileSinks: map[string]*el.FileSink{}, acked: map[int]bool{}, ackedByType: map[string]map[int]bool{}}
 }
 
 func signer(tag string) cloudevents.Signer {
@@ -226,6 +237,8 @@ func (w *world) node(k kind, inst int, fmtFor string) (el.NodeID, el.Node) {
 		n = &el.JSONFormatter{}
 	case kJSONFF:
 		n = &el.JSONFormatterFilter{Predicate: func(interface{}) (bool, error) { return true, nil }}
+	case kJSONFFReject:
+		n = &el.JSONFormatterFilter{Predicate: func(interface{}) (bool, error) { return false, nil }}
 	case kCEJ, kCET:
 		u, _ := url.Parse("https://verif.example/src")
 		f := &cloudevents.FormatterFilter{Source: u, Format: cloudevents.Format(formatOf(k)), Signer: signer("a"), SignEventTypes: []string{"t1", "t2", "composed"},
@@ -291,11 +304,11 @@ func (w *world) addPipeline(id string, ps pipeSpec) {
 	fmtFor := el.JSONFormat
 	for _, k := range ps.Kinds {
 		switch kind(k) {
-		case kCEJ, kCET, kJSON, kJSONFF:
+		case kCEJ, kCET, kJSON, kJSONFF, kJSONFFReject:
 			fmtFor = formatOf(kind(k))
 		}
 	}
-	encAhead, seenFmt := false, false
+	encAhead, seenFmt, rejects := false, false, false
 	for i, k := range ps.Kinds {
 		nid, n := w.node(kind(k), ps.Insts[i], fmtFor)
 		ids = append(ids, nid)
@@ -304,10 +317,14 @@ func (w *world) addPipeline(id string, ps pipeSpec) {
 			if !seenFmt {
 				encAhead = true
 			}
-		case kJSON, kJSONFF, kCEJ, kCET:
+		case kJSON, kJSONFF, kJSONFFReject, kCEJ, kCET:
 			seenFmt = true
+			if kind(k) == kJSONFFReject {
+				rejects = true
+			}
 		case kFile, kFileSame, kWriter, kFileRotTS, kFileRotTSKeep, kFileRotStamped:
 			w.sinkFeeds[string(nid)] = append(w.sinkFeeds[string(nid)], encAhead)
+			w.pipes = append(w.pipes, pipeInfo{typ: ps.Type, sink: string(nid), rejects: rejects})
 			if f, ok := n.(*el.FileSink); ok {
 				w.fileSinks[string(nid)] = f
 			}
@@ -366,6 +383,11 @@ type scenario struct {
 	Alternate int `json:"alternate,omitempty"`
 	// NeedPlain: the sinks not behind an encrypt filter must show the plaintext canaries (each sink renders ITS pipeline's view)
 	NeedPlain bool `json:"need_plain,omitempty"`
+	// PerPipeline: every pipeline has its own sink; a pipeline that does not reject must show every acknowledged event of its
+	// type exactly once in ITS sink and Send must report that sink complete, whatever the other pipelines of the type do
+	PerPipeline bool `json:"per_pipeline,omitempty"`
+	// RebindReopen: the hand-written logrotate scenario (two FileSinks registered successively under one node id)
+	RebindReopen bool `json:"rebind_reopen,omitempty"`
 }
 
 type result struct {
@@ -379,7 +401,101 @@ type result struct {
 	Pairs     []string `json:"neighbour_pairs"`
 }
 
+// logrotate with a rebound node id: RegisterNode(id, A); RegisterPipeline(p1); RegisterNode(id, B); RegisterPipeline(p2) -- two
+// FileSink objects live under ONE node id.  Events, then both files are renamed away externally, Broker.Reopen, more events
+// (with senders running throughout): both paths must exist again and hold every event acknowledged after Reopen returned.
+func runRebindReopen(sc scenario, dir string) result {
+	res := result{Scenario: sc}
+	os.MkdirAll(dir, 0o755)
+	b, _ := el.NewBroker()
+	ctx := context.Background()
+	fsA := &el.FileSink{Path: filepath.Join(dir, "a"), FileName: "ev.log"}
+	fsB := &el.FileSink{Path: filepath.Join(dir, "b"), FileName: "ev.log"}
+	chk := func(err error) {
+		if err != nil {
+			panic(err)
+		}
+	}
+	chk(b.RegisterNode("json", &el.JSONFormatter{}))
+	chk(b.RegisterNode("file", fsA))
+	chk(b.RegisterPipeline(el.Pipeline{PipelineID: "p1", EventType: "t1", NodeIDs: []el.NodeID{"json", "file"}}))
+	chk(b.RegisterNode("file", fsB))
+	chk(b.RegisterPipeline(el.Pipeline{PipelineID: "p2", EventType: "t2", NodeIDs: []el.NodeID{"json", "file"}}))
+	var sent int64
+	send := func(t string, idx int) bool {
+		_, err := b.Send(ctx, el.EventType(t), plainP(idx))
+		atomic.AddInt64(&sent, 1)
+		return err == nil
+	}
+	// background traffic on both types for the whole scenario
+	stop := make(chan struct{})
+	var bg sync.WaitGroup
+	for g := 0; g < 2; g++ {
+		bg.Add(1)
+		go func(g int) {
+			defer bg.Done()
+			for i := 0; ; i++ {
+				select {
+				case <-stop:
+					return
+				default:
+				}
+				send([]string{"t1", "t2"}[(g+i)%2], 5000000+g*1000000+i)
+			}
+		}(g)
+	}
+	for i := 0; i < 20; i++ {
+		send("t1", i)
+		send("t2", 1000+i)
+	}
+	for _, d := range []string{"a", "b"} {
+		if err := os.Rename(filepath.Join(dir, d, "ev.log"), filepath.Join(dir, d, "ev.log.1")); err != nil {
+			res.Integrity = append(res.Integrity, fmt.Sprintf("rebind-reopen: cannot rotate %s/ev.log away: %v", d, err))
+		}
+	}
+	if err := b.Reopen(ctx); err != nil {
+		res.Integrity = append(res.Integrity, fmt.Sprintf("rebind-reopen: Broker.Reopen: %v", err))
+	}
+	post := map[string][]int{}
+	for i := 0; i < 30; i++ {
+		if send("t1", 2000+i) {
+			post["a"] = append(post["a"], 2000+i)
+		}
+		if send("t2", 3000+i) {
+			post["b"] = append(post["b"], 3000+i)
+		}
+	}
+	close(stop)
+	bg.Wait()
+	for _, d := range []string{"a", "b"} {
+		data, err := os.ReadFile(filepath.Join(dir, d, "ev.log"))
+		if err != nil {
+			res.Integrity = append(res.Integrity, fmt.Sprintf("rebind-reopen: after the external rename and Broker.Reopen the FileSink on %s/ev.log did not create its file again (it is still writing to the renamed file): %v", d, err))
+			continue
+		}
+		n, err := jsonDocs(data)
+		res.Docs += n
+		if err != nil {
+			res.Integrity = append(res.Integrity, fmt.Sprintf("rebind-reopen: %s/ev.log is not a sequence of JSON documents: %v", d, err))
+		}
+		missing := 0
+		for _, idx := range post[d] {
+			if !bytes.Contains(data, []byte(fmt.Sprintf("\"N\":%d}", idx))) {
+				missing++
+			}
+		}
+		if missing > 0 {
+			res.Integrity = append(res.Integrity, fmt.Sprintf("rebind-reopen: %d of the %d events acknowledged after Broker.Reopen returned are not in the new %s/ev.log", missing, len(post[d]), d))
+		}
+	}
+	res.Sent = sent
+	return res
+}
+
 func runScenario(sc scenario, seed uint64, dir string) result {
+	if sc.RebindReopen {
+		return runRebindReopen(sc, dir)
+	}
 	r := hc.NewRand(seed)
 	os.MkdirAll(dir, 0o755)
 	w := newWorld(dir)
@@ -412,18 +528,35 @@ func runScenario(sc scenario, seed uint64, dir string) result {
 	ctx := context.Background()
 	send := func(rs *hc.Rand, t string, idx int) {
 		var pl interface{}
-		if sc.ExactOnce || sc.PlainOnly {
+		if sc.ExactOnce || sc.PlainOnly || sc.PerPipeline {
 			pl = plainP(idx)
 		} else {
 			pl = w.payload(rs, idx, hasGated)
 		}
-		_, err := w.b.Send(ctx, el.EventType(t), pl)
+		st, err := w.b.Send(ctx, el.EventType(t), pl)
 		atomic.AddInt64(&w.sent, 1)
 		if err != nil {
 			atomic.AddInt64(&w.sendErrs, 1)
 		} else if sc.ExactOnce {
 			w.amu.Lock()
 			w.acked[idx] = true
+			w.amu.Unlock()
+		}
+		if sc.PerPipeline && err == nil {
+			done := map[string]bool{}
+			for _, id := range st.CompleteSinks() {
+				done[string(id)] = true
+			}
+			w.amu.Lock()
+			if w.ackedByType[t] == nil {
+				w.ackedByType[t] = map[int]bool{}
+			}
+			w.ackedByType[t][idx] = true
+			for _, p := range w.pipes {
+				if p.typ == t && !p.rejects && !done[p.sink] && len(w.notComplete) < 5 {
+					w.notComplete = append(w.notComplete, fmt.Sprintf("event %d of type %s: Send did not report sink %s complete (warnings: %v)", idx, t, p.sink, st.Warnings))
+				}
+			}
 			w.amu.Unlock()
 		}
 	}
@@ -576,6 +709,50 @@ func runScenario(sc scenario, seed uint64, dir string) result {
 			res.Integrity = append(res.Integrity, fmt.Sprintf("%s: the plain pipeline's sink does not show the plaintext", name))
 		}
 	}
+	if sc.PerPipeline {
+		res.Integrity = append(res.Integrity, w.notComplete...)
+		for _, p := range w.pipes {
+			data := outputs[p.sink]
+			counts := map[int]int{}
+			dec := json.NewDecoder(bytes.NewReader(data))
+			for dec.More() {
+				var doc struct {
+					Payload *struct{ N int } `json:"payload"`
+					Data    *struct{ N int } `json:"data"`
+				}
+				if err := dec.Decode(&doc); err != nil {
+					break
+				}
+				switch {
+				case doc.Payload != nil:
+					counts[doc.Payload.N]++
+				case doc.Data != nil:
+					counts[doc.Data.N]++
+				}
+			}
+			if p.rejects {
+				if len(counts) > 0 {
+					res.Integrity = append(res.Integrity, fmt.Sprintf("%s: the sink of a pipeline that rejects every event holds %d events", p.sink, len(counts)))
+				}
+				continue
+			}
+			missing, dup, ex := 0, 0, -1
+			for idx := range w.ackedByType[p.typ] {
+				switch c := counts[idx]; {
+				case c == 0:
+					missing++
+					ex = idx
+				case c > 1:
+					dup++
+					ex = idx
+				}
+			}
+			if missing+dup > 0 {
+				res.Integrity = append(res.Integrity, fmt.Sprintf("%s (pipeline of type %s, %d pipelines share the event): of %d acknowledged events %d are missing from this pipeline's sink and %d are in it more than once (e.g. event %d): a pipeline's outcome depends on what the other pipelines do with the shared event",
+					p.sink, p.typ, pipesOfType(w.pipes, p.typ), len(w.ackedByType[p.typ]), missing, dup, ex))
+			}
+		}
+	}
 	if sc.ExactOnce {
 		// every acknowledged event exactly once and whole in the file the FileSinks share
 		counts := map[int]int{}
@@ -622,6 +799,63 @@ func runScenario(sc scenario, seed uint64, dir string) result {
 	}
 	sort.Strings(res.Pairs)
 	return res
+}
+
+func pipesOfType(ps []pipeInfo, t string) int {
+	n := 0
+	for _, p := range ps {
+		if p.typ == t {
+			n++
+		}
+	}
+	return n
+}
+
+// heads: the node kinds a pipeline may start with in the per-pipeline scenarios (followed by a formatter where the head is a filter)
+var heads = [][]kind{{kJSON}, {kJSONFF}, {kJSONFFReject}, {kCEJ}, {kEnc, kJSON}, {kGated, kJSON}}
+
+// every multiset of 2 heads (each in both "who gets a pass Filter in front" variants), plus seeded samples of 3 and 4 heads, each
+// combination under its own event type, every pipeline with its own writer sink
+func headScenarios(r *hc.Rand, per, triples, quads int) []scenario {
+	var combos [][]int
+	for a := 0; a < len(heads); a++ {
+		for b := a; b < len(heads); b++ {
+			combos = append(combos, []int{a, b}, []int{b, a})
+		}
+	}
+	for i := 0; i < triples; i++ {
+		combos = append(combos, []int{r.Intn(len(heads)), r.Intn(len(heads)), r.Intn(len(heads))})
+	}
+	for i := 0; i < quads; i++ {
+		combos = append(combos, []int{r.Intn(len(heads)), r.Intn(len(heads)), r.Intn(len(heads)), r.Intn(len(heads))})
+	}
+	var out []scenario
+	inst := 100
+	for start := 0; start < len(combos); start += 8 {
+		sc := scenario{Name: fmt.Sprintf("heads-%d", start/8), Senders: 4, PerSend: per / 2, PerPipeline: true, Controls: []string{"ce-rotate", "enc-rotate"}}
+		for ci := start; ci < start+8 && ci < len(combos); ci++ {
+			for pi, h := range combos[ci] {
+				var kinds []string
+				var insts []int
+				// the LAST pipeline of a combination gets a pass Filter in front: its formatter is not the root and runs on a goroutine of its own
+				if pi == len(combos[ci])-1 {
+					kinds = append(kinds, string(kFilter))
+					insts = append(insts, 0)
+				}
+				for _, k := range heads[h] {
+					inst++
+					kinds = append(kinds, string(k))
+					insts = append(insts, inst)
+				}
+				inst++
+				kinds = append(kinds, string(kWriter))
+				insts = append(insts, inst)
+				sc.Pipes = append(sc.Pipes, pipeSpec{Type: fmt.Sprintf("h%d", ci), Kinds: kinds, Insts: insts})
+			}
+		}
+		out = append(out, sc)
+	}
+	return out
 }
 
 // ---------- the scenario space ----------
@@ -747,6 +981,8 @@ func main() {
 	} else {
 		scs = focused(*per)
 		scs = append(scs, pairScenarios(*per)...)
+		scs = append(scs, scenario{Name: "filesink-rebind-reopen", RebindReopen: true})
+		scs = append(scs, headScenarios(r.Fork(), *per, *nrandom, *nrandom/2)...)
 		for i := 0; i < *nrandom; i++ {
 			scs = append(scs, randomScenario(r.Fork(), i, *per))
 		}
